@@ -235,3 +235,5 @@ func verifNativeRun(t *testing.T, job int, inputsPath string, h func()) {
 	out, _ := json.Marshal(map[string]any{"job": job, "failed": verifNS.failed, "reached": verifNS.reached, "panic": pmsg})
 	fmt.Printf("VERIF-REPLAY %s\n", out)
 }
+
+func verifConcretizeU16(x uint16) uint16 { return x }
